@@ -1,7 +1,163 @@
 import KitModel.Go.Prelude
-/-! Driver for property C08: `kitdrv C08` reads op lines on stdin, one answer line per input line. -/
+import KitModel.PoolOwnership
+import KitModel.Generated.C08
+/-!
+Driver for property C08: `kitdrv C08` reads op lines on stdin, one answer line per input line.
+Every answer is computed by RUNNING the executable definitions of `KitModel/PoolOwnership.lean`
+with the facts regenerated from the source (`Generated.C08.headerRet` = what `readHeader` returns).
+
+* `rh doc=<hex> chunk=<k>` — `readHeader` on a stream delivering `doc` in reads of at most `k`
+  bytes (`0` = as much as asked): `err` or
+  `ok man=<hex> mac=<hex> restlen=<n> alias=<0|1>,<0|1>` (the bytes are read out of the model heap
+  through the returned slices after the buffer was put back).
+* `forced mode=nest|nestdec|scribble a=<hex> b=<hex> [variant=prefix|fixed]` — thread A =
+  `Decrypt(a)`; it runs up to the hook after `readHeader`; then B (a complete pipeline / only
+  Decrypt / take-scribble-put) runs to its end, the pool handing out the most recently put buffer;
+  then A finishes.  Answer: `a=same|differs b=same|differs access=ok|violated steps=<n>`
+  (`same` = the log equals `soloLog`; `access` = was every array touched owned by the toucher).
+* `interleave seed=<n> docs=<hex>,<hex>,… [variant=…]` — a pseudo-random schedule with
+  pseudo-random pool choices over Decrypt threads; same answer format (`a` = all threads).
+-/
 namespace Driver.C08
+open Kit Kit.PoolOwn
+
+def toBytes (bs : Kit.Bytes) : List Byte := bs.map (·.toNat)
+def hexOf (l : List Byte) : String := Kit.toHex (l.map UInt8.ofNat)
+
+def retOf (l : Kit.Line) : HeaderRet :=
+  match l.get? "variant" with
+  | some "prefix" => retPreFix
+  | some "fixed" => retFixed
+  | _ => Kit.Generated.C08.headerRet
+
+def b2s (b : Bool) : String := if b then "1" else "0"
+
+/-- run thread `t` alone for `fuel` steps, fresh buffers only -/
+def runAlone (s : State) (t : Nat) : Nat → State
+  | 0 => s
+  | fuel + 1 =>
+    match step s t none with
+    | some s' => runAlone s' t fuel
+    | none => s
+
+def doRH (l : Kit.Line) : String :=
+  match l.hex? "doc", l.nat? "chunk" with
+  | some doc, some k =>
+    let doc := toBytes doc
+    let ret := retOf l
+    let reads := chunksOf (doc.length + 1) k doc
+    let r := readHeaderProg ret segmentSize 0 reads
+    match r.2 with
+    | none => "err"
+    | some o =>
+      let s := runAlone (init fun t => if t = 0 then r.1 else []) 0 (r.1.length + 1)
+      let th := s.thr 0
+      let man := readCells (s.heap (th.tbl o.man.h)) o.man.off o.man.len
+      let mac := readCells (s.heap (th.tbl o.mac.h)) o.mac.off o.mac.len
+      s!"ok man={hexOf man} mac={hexOf mac} restlen={doc.length - o.hdrLen} alias={b2s (ret.manifest == .alias)},{b2s (ret.mac == .alias)}"
+  | _, _ => "bad-request"
+
+/-- one step of thread `t` with the pool's choice `c`, recording whether the access was owned -/
+def stepChk (s : State) (ok : Bool) (t : Nat) (c : Option Nat) : Option (State × Bool) :=
+  match step s t c with
+  | some s' => some (s', ok && accessOk s t)
+  | none => none
+
+/-- run `t` until it has executed its first `yield` (or ends); LIFO pool -/
+def runToYield (s : State) (ok : Bool) (t : Nat) : Nat → State × Bool × Nat
+  | 0 => (s, ok, 0)
+  | fuel + 1 =>
+    let isYield := match (s.thr t).prog with | .yield :: _ => true | _ => false
+    match stepChk s ok t s.pool.head? with
+    | some (s', ok') =>
+      if isYield then (s', ok', 1)
+      else let r := runToYield s' ok' t fuel; (r.1, r.2.1, r.2.2 + 1)
+    | none => (s, ok, 0)
+
+def runToEnd (s : State) (ok : Bool) (t : Nat) : Nat → State × Bool × Nat
+  | 0 => (s, ok, 0)
+  | fuel + 1 =>
+    match stepChk s ok t s.pool.head? with
+    | some (s', ok') => let r := runToEnd s' ok' t fuel; (r.1, r.2.1, r.2.2 + 1)
+    | none => (s, ok, 0)
+
+def decryptOf (ret : HeaderRet) (hb : Nat) (doc : List Byte) : List Instr :=
+  decryptProg ret segmentSize hb [doc.take segmentSize] (bodyOf 0 doc)
+
+def sameStr (b : Bool) : String := if b then "same" else "differs"
+
+def doForced (l : Kit.Line) : String :=
+  match l.get? "mode", l.hex? "a", l.hex? "b" with
+  | some mode, some a, some b =>
+    let ret := retOf l
+    let a := toBytes a
+    let b := toBytes b
+    let pa := decryptOf ret 0 a
+    let pb : List Instr :=
+      if mode == "nest" then encryptProg 0 (bodyOf 0 b) ++ decryptOf ret 1 b
+      else if mode == "nestdec" then decryptOf ret 0 b
+      else [.get, .write 0 0 (List.replicate 64 170), .put 0]
+    let s0 := init fun t => if t = 0 then pa else if t = 1 then pb else []
+    let r1 := runToYield s0 true 0 (pa.length + 1)
+    let r2 := runToEnd r1.1 r1.2.1 1 (pb.length + 1)
+    let r3 := runToEnd r2.1 r2.2.1 0 (pa.length + 1)
+    let s := r3.1
+    let sa := (s.thr 0).log == soloLog pa && (s.thr 0).prog.isEmpty
+    let sb := (s.thr 1).log == soloLog pb && (s.thr 1).prog.isEmpty
+    s!"a={sameStr sa} b={sameStr sb} access={if r3.2.1 then "ok" else "violated"} steps={r1.2.2 + r2.2.2 + r3.2.2}"
+  | _, _, _ => "bad-request"
+
+def lcg (x : Nat) : Nat := (x * 6364136223846793005 + 1442695040888963407) % 18446744073709551616
+
+/-- pseudo-random schedule: pick a thread, pick fresh or some pooled buffer -/
+def runRandom (n : Nat) (s : State) (ok : Bool) (seed : Nat) : Nat → State × Bool × Nat
+  | 0 => (s, ok, 0)
+  | fuel + 1 =>
+    let x := lcg seed
+    let t := (x / 65536) % n
+    let y := lcg x
+    let c : Option Nat :=
+      if s.pool.isEmpty || (y / 65536) % 3 == 0 then none else s.pool[(y / 131072) % s.pool.length]?
+    match stepChk s ok t c with
+    | some (s', ok') => let r := runRandom n s' ok' y fuel; (r.1, r.2.1, r.2.2 + 1)
+    | none =>
+      -- thread finished: give the step to the first unfinished thread, if any
+      match (List.range n).find? fun u => !(s.thr u).prog.isEmpty with
+      | some u =>
+        match stepChk s ok u c with
+        | some (s', ok') => let r := runRandom n s' ok' y fuel; (r.1, r.2.1, r.2.2 + 1)
+        | none => (s, ok, 0)
+      | none => (s, ok, 0)
+
+def doInterleave (l : Kit.Line) : String :=
+  match l.nat? "seed", l.get? "docs" with
+  | some seed, some ds =>
+    match (ds.splitOn ",").mapM Kit.fromHex with
+    | some docs =>
+      let ret := retOf l
+      let progs := docs.map fun d => decryptOf ret 0 (toBytes d)
+      let n := progs.length
+      if n = 0 then "bad-request" else
+      let s0 := init fun t => progs.getD t []
+      let total := progs.foldl (fun acc p => acc + p.length) 0
+      let r := runRandom n s0 true seed (total + 1)
+      let s := r.1
+      let all := (List.range n).all fun t => (s.thr t).log == soloLog (progs.getD t []) && (s.thr t).prog.isEmpty
+      s!"a={sameStr all} b=same access={if r.2.1 then "ok" else "violated"} steps={r.2.2}"
+    | none => "bad-request"
+  | _, _ => "bad-request"
+
+def answer (line : String) : String :=
+  let l := Kit.parseLine line
+  match l.op with
+  | "rh" => doRH l
+  | "forced" => doForced l
+  | "interleave" => doInterleave l
+  | "facts" => s!"headerRet={repr Kit.Generated.C08.headerRet}"
+  | _ => "bad-request"
+
 def main (_args : List String) : IO UInt32 := do
-  IO.eprintln "kitdrv: C08 has no model driver yet"
-  return 2
+  Kit.lineLoop (fun (_ : Unit) l => ((), answer l)) ()
+  return 0
+
 end Driver.C08
